@@ -29,6 +29,10 @@ CHECKS = {
    text="Explicit-state BFS over event histories of three real stations (GeoNetworking + BTP routers on an in-memory ether; A sends, B is addressed, C lies outside the destination area): up to three requests of every transport type (SHB, GBC, GAC, GUC with and without a pending location-service lookup), every delivery order of the pending frames, an unrelated reception at the sender, a destination beacon, location-service timer expiries and an ego-position refresh. After EVERY transition a copy of the world is run to quiescence and every request must have reached exactly the addressed port handler once, byte-identical, in request order, with the sender's position vector, transport type and port information, and nobody else. Plus complete two-station sweeps: ports x BTP-A/B (boundary classes quick, all 65536 thorough), every payload byte value, lengths around the MTU, all 256 traffic classes and hop limits, and a placement lattice of 7x7 positions over both hemispheres x 8 receiver offsets x 3 shapes x SIMPLE/CBF.",
    note="Trusted: CPython, deepcopy snapshots cross-checked by history replay, the delivery oracle in mc/checks/c01.py. Order is judged per transport kind. <=3 requests, depth 5-7 (7-9 thorough). Secured end-to-end delivery is exercised by C03/C05 for the CAM/DENM profiles; other profiles with security on are outside this check (see DESIGN.md).",
    technique="explicit-state BFS over real objects with run-to-quiescence oracle on every state + exhaustive configuration lattices"),
+ "C04": dict(level="fault_enumeration", design="3/C04",
+   text="Enumeration of declared bad-frame families - all 256 first octets, all 4096 (NH,HT,HST) triples, every truncation length and single-bit flips of 14 valid packet kinds (crafted beacon/SHB/TSB/GBCx3/GAC/GUC/LS packets and REAL CAM/DENM/VAM frames captured from a sender stack), RHL>MHL, all station-type values, zero/oversized areas, all lifetime codes, every truncation and bit flips of the real facility payloads, short arbitrary byte strings, own-MAC and foreign-unicast frames - each inserted at several positions of two valid streams and run through the REAL RawLinkLayer.receive() loop (scripted socket) of a complete station (GN + BTP + CA/DEN/VRU services, with and without LDM), next to a run without the bad frame. A reference parser classifies each frame; for malformed/ignored frames handler invocations, emitted frames, location table and LDM must be identical, for frames with an undecodable facility payload handlers and LDM, for well-formed mutants the loop must stay alive. The cv2x callback loop is driven over a scripted queue as second target. The suite never runs the receive loop at all.",
+   note="Trusted: CPython, asn1tools (to classify facility payloads), reference parser mc/ref/gn_codec.py and classify() in mc/checks/c04.py. Secured envelopes are covered by C03's mutation families (exceptions from verify count as not delivered there).",
+   technique="exhaustive fault enumeration through the real receive loop with a differential (with/without the bad frame) oracle"),
 }
 
 NOT_APPLICABLE = {}
